@@ -294,6 +294,7 @@ class Analysis:
         self.value_hook = value_hook
         self.ptr = {}              # pointer variable -> (buffer, offset Lin) (flow-insensitive aliases discovered on the fly are in the state)
         self.returns = []          # (ev, state, value Lin)
+        self.wrapped_guards = []   # guards ignored because their 32-bit unsigned arithmetic may wrap
         self.states = {}
         self.assigned = set()
         for ev in fn.events():
@@ -661,12 +662,28 @@ class Analysis:
             if d is not None:
                 self.oblige(ev, '%s:unbounded' % c, None, st, 'unbounded %s into %s' % (c, d[0]))
 
+    def may_wrap32(self, e, st):
+        """does e contain a + or * evaluated in unsigned 32-bit arithmetic whose mathematical value is not entailed to fit?"""
+        for n in walk(e):
+            if n.get('k') == 'bin' and n.get('op') in ('+', '*'):
+                ti = self.prog.type_info(n.get('ty', ''))
+                if ti.get('kind') == 'int' and ti.get('signed') is False and ti.get('bits') == 32:
+                    v = self.lin(n, st)
+                    if v is None or not st.entails(v - Lin(2 ** 32 - 1)):
+                        return True
+        return False
+
     def refine(self, st, cond, lab):
         """add the facts of the edge (cond == lab) to st; returns False when the edge is infeasible in st"""
         feasible = True
         for at in atoms_of(cond, lab):
             l, r = self.lin(at.l, st), self.lin(at.r, st)
             if l is None or r is None:
+                continue
+            if self.may_wrap32(at.l, st) or self.may_wrap32(at.r, st):
+                # a comparison whose operand is computed in 32-bit unsigned arithmetic and may exceed 2^32 - 1 says nothing
+                # about the mathematical sum: no fact is learned from this edge
+                self.wrapped_guards.append((estr(cond), lab))
                 continue
             op = at.op
             new = []
